@@ -181,6 +181,9 @@ func isReflectValueExpectedType(r reflect.Value, typ *sysl.Type) bool {
 		if typ.GetList() == nil || typ.GetSet() != nil {
 			return false
 		}
+		if r.Len() == 0 {
+			return true
+		}
 		_, has = kindToPrimitiveType(r.Index(0).Kind())
 		return has
 	}
